@@ -413,6 +413,19 @@ theorem backoff_overflow_witness :
 theorem interim_ack_writes_nothing_durable (σ : State) (a : Ans) : (step σ (.itick a)).dur = σ.dur :=
   itick_ghost State.dur (fun _ _ => rfl) (fun _ _ _ => rfl) (fun _ _ _ => rfl) (fun _ _ => rfl) σ a
 
+/-! ## overlapping API calls -/
+
+/-- The model has ONE API program counter: a StartSession / StopSession / Stop() attempted while another API call is
+    in progress changes nothing but its own result.  The code matches this for calls of the SAME session - a
+    StopSession is refused while the session's StartSession or another StopSession is under way (fixes
+    C08-start-stop-overlap, C08-stop-stop-overlap; the correspondence run nests such calls at every marker);
+    overlapping calls of DIFFERENT sessions are executed by the code and are not modelled. -/
+theorem overlapping_call_has_no_effect (σ : State) (hup : σ.up = true) (hpc : σ.vol.pc.isSome = true) :
+    (∀ s c, step σ (.stop s c) = { σ with res := .busy }) ∧
+    (∀ s i, step σ (.start s i) = { σ with res := .busy }) ∧
+    (∀ o, step σ (.shutdown o) = { σ with res := .busy }) := by
+  refine ⟨?_, ?_, ?_⟩ <;> intros <;> simp [step, hup, hpc]
+
 /-! non-vacuity -/
 example : ∃ ops : List Op, Op.crash ∉ ops ∧ Op.crashTorn ∉ ops ∧
     ((run (init ⟨3, 8⟩) ops).registered.map (·.1)).Nodup ∧ (run (init ⟨3, 8⟩) ops).log.length = 4 :=
